@@ -26,7 +26,7 @@ for pid in props:
     })
 man = {
     'version': 1,
-    'setup_cmd': 'python3 tools/gen_drv_all.py && /venv/bin/python tools/py2lean.py; /venv/bin/python tools/py2lean_dtype.py; /venv/bin/python tools/py2lean_locmap.py; /venv/bin/python tools/py2lean_window.py; /venv/bin/python tools/py2lean_targets.py; /venv/bin/python tools/py2lean_reduce.py; cd lean && lake build SFModel',
+    'setup_cmd': 'python3 tools/gen_drv_all.py && for t in py2lean py2lean_dtype py2lean_locmap py2lean_window py2lean_targets py2lean_reduce py2lean_bus; do /venv/bin/python tools/$t.py; done; cd lean && lake build SFModel',
     'hooks': {
         'guard': 'STATIC_FRAME_VERIF',
         'enable': 'none needed: every observation is made by attribute access from outside; no source hooks',
